@@ -46,6 +46,8 @@ class Mod:
         self.types = mod.get("types", {})
         self.records = {n: dict(r, fields=[(a, p, _tt(t)) for a, p, t in r["fields"]]) for n, r in mod.get("records", {}).items()}
         self.coercions = [(_tt(a), _tt(b), f) for a, b, f in mod.get("coercions", [])]
+        self.list_ops = bool(mod.get("list_ops"))     # [C05] off by default
+        self.option_eqb = mod.get("option_eqb")   # [C08] module option: coq function lifting an equality test to `option` (x == y on Optional values)
         self.translated = {}     # python call name -> (coq name, [param types], ret type, fuelled, generator)
         self.selfmeths = {}      # [C07] "self_method" callees: python method name -> dict(coq, params, rtype, fuelled, mutates, defaults)
 
@@ -113,6 +115,11 @@ class Mod:
             return 'Bool.eqb'
         if isinstance(t, str) and t in self.types and self.types[t].get("eqb"):
             return self.types[t]["eqb"]
+        if self.list_ops and isinstance(t, tuple) and t[0] == 'L':
+            # [C05] module option "list_ops": == / != on tuples / lists is element-wise (Base.ListX.list_eqb)
+            return "(list_eqb %s)" % self.eqb(t[1], node)
+        if self.option_eqb and isinstance(t, tuple) and t[0] == 'O':      # [C08] off unless the module declares "option_eqb"
+            return "(%s %s)" % (self.option_eqb, self.eqb(t[1], node))
         _fail(node, "no decidable equality declared for %s" % (t,))
 
 
@@ -334,6 +341,18 @@ class Fn:
                     txts.append(t if isinstance(op, ast.Is) else "(negb %s)" % t)
                     conds += a[2]
                     continue
+                if self.m.list_ops and isinstance(op, (ast.In, ast.NotIn)):
+                    # [C05] module option "list_ops": `x in seq` / `x not in seq` on a tuple / list of a type with equality
+                    b = self.as_list(n, self.ex(r, da))
+                    if b[1][0] != 'L':
+                        _fail(n, "membership in %s" % (b[1],))
+                    a = self.ex(l, da, b[1][1])
+                    t = "(existsb (%s %s) %s)" % (self.m.eqb(b[1][1], n), a[0], b[0])
+                    guard = " && ".join(txts) if txts else None
+                    conds += [(c if guard is None else "(implb (%s) %s)" % (guard, c)) for c in (a[2] if first is None else []) + b[2]]
+                    first = False
+                    txts.append(t if isinstance(op, ast.In) else "(negb %s)" % t)
+                    continue
                 a = self.ex(l, da)
                 if self.spec.get("optional_compare") and a[1] == ('O', 'Z') and isinstance(op, (ast.Lt, ast.LtE, ast.Gt, ast.GtE)):
                     # [C03] spec option "optional_compare": an ordering comparison on an Optional[int] uses the value; on None
@@ -477,6 +496,30 @@ class Fn:
             if e[2]:
                 _fail(n, "partial expression inside a comprehension")
             return ("(l%s (map (fun %s_ => %s) %s))" % (name, v, e[0], lst[0]), 'Z', lst[2] + ["(negb (zlen %s =? 0))" % lst[0]])
+        if self.m.list_ops and name in ("tuple", "list") and len(args) == 1 and isinstance(args[0], ast.GeneratorExp) \
+                and len(args[0].generators) == 1 and not args[0].generators[0].is_async \
+                and isinstance(args[0].generators[0].target, ast.Name):
+            # [C05] module option "list_ops": tuple(E for v in L if C ...) = map (fun v => E) (filter (fun v => C && ...) L);
+            # v is bound inside E and C only; E and C must be total (no side conditions)
+            g = args[0].generators[0]
+            v = g.target.id
+            if v in self.vars or v in getattr(self, "bound", {}):
+                _fail(n, "comprehension variable %s shadows a local" % v)
+            lst = self.as_list(n, self.ex(g.iter, da))
+            if lst[1][0] != 'L':
+                _fail(n, "comprehension over %s" % (lst[1],))
+            self.bound = dict(getattr(self, "bound", {}))
+            self.bound[v] = ("%s_" % v, lst[1][1])
+            try:
+                e = self.ex(args[0].elt, da)
+                cs = [self.ex(c, da, 'B') for c in g.ifs]
+            finally:
+                del self.bound[v]
+            if e[2] or any(c[2] for c in cs):
+                _fail(n, "partial expression inside a comprehension")
+            src = lst[0] if not cs else "(filter (fun %s_ => %s) %s)" % (v, " && ".join(c[0] for c in cs), lst[0])
+            txt = src if e[0] == "%s_" % v else "(map (fun %s_ => %s) %s)" % (v, e[0], src)
+            return (txt, ('L', e[1]), lst[2])
         if self.spec.get("comprehensions") and name == "sum" and len(args) == 1 and isinstance(args[0], ast.GeneratorExp) \
                 and len(args[0].generators) == 1 and not args[0].generators[0].ifs and not args[0].generators[0].is_async \
                 and isinstance(args[0].generators[0].target, ast.Name):
@@ -524,6 +567,10 @@ class Fn:
             if a[1][0] != 'L':
                 _fail(n, "%s() of %s" % (name, a[1]))
             return a
+        if self.spec.get("enumerate") and name == "enumerate" and len(args) == 1:
+            # [C08] enumerate(seq) evaluated once: the list of (index, element)
+            a = self.as_list(n, self.ex(args[0], da))
+            return ("(List.combine (zrange (zlen %s)) %s)" % (a[0], a[0]), ('L', ('T', 'Z', a[1][1])), a[2])
         if name == "zip" and len(args) == 2:
             a, b = self.as_list(n, self.ex(args[0], da)), self.as_list(n, self.ex(args[1], da))
             return ("(combine %s %s)" % (a[0], b[0]), ('L', ('T', a[1][1], b[1][1])), a[2] + b[2])
@@ -702,7 +749,14 @@ class Fn:
             if not (isinstance(t, tuple) and t[0] == 'L') or v not in da:
                 _fail(s, ".append on %s" % v)
             if v in [p for p, _ in self.params]:
-                _fail(s, ".append on a parameter (the caller's list would change)")
+                # [C02] spec option "fresh_params": [names]: `.append` on a parameter is accepted when the function has, on an
+                # earlier line, the statement `<name> = list(<name>)` (the name then denotes a fresh list, the caller's is
+                # untouched).  Off by default.
+                fresh = v in self.spec.get("fresh_params", []) and any(
+                    isinstance(a, ast.Assign) and ast.unparse(a) == "%s = list(%s)" % (v, v) and a.lineno < s.lineno
+                    for a in ast.walk(self.fdef))
+                if not fresh:
+                    _fail(s, ".append on a parameter (the caller's list would change)")
             tx = self.ex(s.value.args[0], da, t[1])
             return self.guarded(tx[2], "(assign (fun s => %s))" % self.setter(v, "(%s ++ [%s])" % (self.get(v), tx[0]))), da
         if self.spec.get("stmt_patterns") and ast.unparse(s) in self.spec["stmt_patterns"]:
